@@ -804,7 +804,7 @@ func (h *harness) searchJobs() []job {
 	}
 	// 4. generated layers; one in eight also goes through the concurrent calls
 	// (all of those with a symbolic link in directory position do)
-	for i, n := 0, h.cfg.N(1600, 24000); i < n; i++ {
+	for i, n := 0, h.cfg.N(1300, 24000); i < n; i++ {
 		jobs = append(jobs, job{func(r *hx.Rand) genLayer {
 			oo := o
 			oo.wellFormed = r.Chance(1, 12)
@@ -817,7 +817,7 @@ func (h *harness) searchJobs() []job {
 	}
 	// 5. usr-merged style layers: several parts, one or two directories moved
 	// behind symbolic links, every scanner at once
-	for i, n := 0, h.cfg.N(200, 3000); i < n; i++ {
+	for i, n := 0, h.cfg.N(150, 3000); i < n; i++ {
 		jobs = append(jobs, job{func(r *hx.Rand) genLayer {
 			oo := o
 			oo.wellFormed = r.Chance(1, 2)
@@ -832,7 +832,7 @@ func (h *harness) searchJobs() []job {
 	// every seed), the thorough tier runs many more
 	{
 		const combos = 5 * 10 * 80 * 2 * 3
-		n := h.cfg.N(260, 6000)
+		n := h.cfg.N(200, 6000)
 		start := int(h.cfg.Seed%97) * 263
 		for i := 0; i < n; i++ {
 			k := (start + i*(combos/n+1)) % combos
